@@ -118,14 +118,14 @@ package hessian
 //@   callsonly dynamic
 //@   assigns @dyncalls, @lastdyn
 //@   ensures [C17:get-one-receive]      recvs(p.cached) <= 1 && sends(p.cached) == 0 && dyncalls() <= 1
-//@   ensures [C17:get-returns-received] recvs(p.cached) == 1 ==> result == lastrecv(p.cached) && dyncalls() == 0 && chlen(p.cached) == old(chlen(p.cached)) - 1
-//@   ensures [C17:get-fresh-when-empty] recvs(p.cached) == 0 ==> old(chlen(p.cached)) == 0 && dyncalls() == 1 && result == lastdyn() && chlen(p.cached) == 0
+//@   ensures [C17,C12:get-returns-received] recvs(p.cached) == 1 ==> result == lastrecv(p.cached) && dyncalls() == 0 && chlen(p.cached) == old(chlen(p.cached)) - 1
+//@   ensures [C17,C12:get-fresh-when-empty] recvs(p.cached) == 0 ==> old(chlen(p.cached)) == 0 && dyncalls() == 1 && result == lastdyn() && chlen(p.cached) == 0
 
 //@ func (*objectPool).Return
 //@   noloops
 //@   callsonly nothing
 //@   assigns nothing
-//@   ensures [C17:return-one-send]       sends(p.cached) <= 1 && recvs(p.cached) == 0
+//@   ensures [C17,C12:return-one-send]       sends(p.cached) <= 1 && recvs(p.cached) == 0
 //@   ensures [C17:return-sends-arg]      sends(p.cached) == 1 ==> lastsent(p.cached) == o && chlen(p.cached) == old(chlen(p.cached)) + 1
 //@   ensures [C17:return-drop-when-full] sends(p.cached) == 0 ==> old(chlen(p.cached)) == chcap(p.cached) && chlen(p.cached) == old(chlen(p.cached))
 //@   ensures [C17:return-bounded]        chlen(p.cached) <= chcap(p.cached)
